@@ -93,12 +93,12 @@ def write_hists(res, path, limit=None):
     return n, samples
 
 
-def replay_file(ctx, path, defs_path, nval, tag, modes="self,ext", timeout=1500):
+def replay_file(ctx, path, defs_path, nval, tag, modes="self,ext", timeout=1500, zero="auto"):
     out = ctx.path("out_%s.ndjson" % tag)
     rc, text, wall = ctx.go_test(
         MODULE, PKG, HARNESS, "^TestVerifGorpReplay$",
         env={"VERIF_IN": path, "VERIF_OUT": out, "VERIF_DEFS": defs_path, "VERIF_NVAL": nval,
-             "VERIF_MODES": modes, "VERIF_WORKERS": os.environ.get("VERIF_WORKERS", "")},
+             "VERIF_MODES": modes, "VERIF_ZERO": zero, "VERIF_WORKERS": os.environ.get("VERIF_WORKERS", "")},
         tag=tag, timeout=timeout)
     rows = ctx.read_ndjson(out)
     if rc != 0 or not rows or not rows[0].get("summary"):
@@ -145,7 +145,8 @@ def judge(ctx, bads, defs_path, nval):
         one = ctx.path("one.ndjson")
         with open(one, "w") as f:
             f.write(json.dumps(hist) + "\n")
-        summ, bad2, _ = replay_file(ctx, one, defs_path, nval, "repro", modes=b.get("mode") or "self,ext")
+        summ, bad2, _ = replay_file(ctx, one, defs_path, nval, "repro", modes=b.get("mode") or "self,ext",
+                                    zero="1" if b.get("zero") else "0")
         if not bad2:
             raise vlib.Inconclusive("mismatch did not reproduce: %s" % b)
         b2 = bad2[0]
@@ -156,8 +157,8 @@ def judge(ctx, bads, defs_path, nval):
             continue
         upto = max(b2.get("step", 0), 0)
         script = [{k: s[k] for k in ("a", "u", "k", "v", "v2")} for s in hist[:upto + 1]]
-        what = ("gorp table (observer mode %s): after step %d (%s %s %s %s) %s: specification/scan says %s, "
-                "real code gave %s" % (b2.get("mode"), b2.get("step"), step.get("a"), step.get("u"),
+        what = ("gorp table (observer mode %s%s): after step %d (%s %s %s %s) %s: specification/scan says %s, "
+                "real code gave %s" % (b2.get("mode"), ', value "a" stored as ""' if b2.get("zero") else "", b2.get("step"), step.get("a"), step.get("u"),
                                        step.get("k"), step.get("v"), b2.get("what"), b2.get("exp"), b2.get("act")))
         ctx.report(sig, what, {"history": hist, "script": script, "mismatch": b2, "nval": nval,
                                "cmd": "python3 tools/verif.py replay C17 <this file>"})
@@ -271,7 +272,8 @@ def run(ctx):
         lst.sort(key=lambda x: (x[1].get("cls") in DRIFT_CLS, x[1].get("cls") == "dup-values", x[1]["i"]))
         judge(ctx, lst, defs_path, nv)
     # vacuity of the binding (only meaningful when behaviours ran to their end)
-    need = ["set", "upd", "del", "updeq", "deleq", "remote", "open", "commit", "abort", "populate", "nest", "nestset"]
+    need = ["set", "upd", "del", "delset", "updeq", "deleq", "remote", "open", "commit", "abort", "commitfail",
+            "populate", "nest", "nestset"]
     missing = [a for a in need if mech.get("actions", {}).get(a, 0) == 0]
     if not ctx.violations and (missing or mech.get("tx_views_with_staged_writes", 0) == 0
                                or mech.get("nest_conflicts", 0) == 0):
@@ -339,7 +341,9 @@ def replay(ctx, path):
     one = ctx.path("one.ndjson")
     with open(one, "w") as f:
         f.write(json.dumps(obj["history"]) + "\n")
-    summ, bad, _ = replay_file(ctx, one, defs_path, obj.get("nval", 3), "replay")
+    mm = obj.get("mismatch") or {}
+    summ, bad, _ = replay_file(ctx, one, defs_path, obj.get("nval", 3), "replay", modes=mm.get("mode") or "self,ext",
+                               zero=("1" if mm.get("zero") else "0") if "zero" in mm else "auto")
     want = (obj.get("mismatch") or {}).get("cls")
     bad = [b for b in bad if b.get("cls") in PROPERTY_CLS and (b.get("cls") != "dup-values" or want == "dup-values")]
     if bad:
